@@ -3,3 +3,7 @@ import Rp2.Props.C11
 #print axioms Rp2.C11.permuted_columns_same_fields
 #print axioms Rp2.C11.ids_are_row_numbers
 #print axioms Rp2.C11.no_row_skipped
+#print axioms Rp2.C11.in_row_fields_are_cells
+#print axioms Rp2.C11.optional_cell_read
+#print axioms Rp2.C11.out_row_fields_are_cells
+#print axioms Rp2.C11.intra_row_fields_are_cells
